@@ -1,6 +1,6 @@
 (* C43 — Conflict tables and conflict resolution are exact.  Property theorems only. *)
 From Coq Require Import NArith List Bool.
-From Dolt Require Import C29.Model C29.Spec C29.Corr C29.Proofs C43.Model C43.Spec C43.Corr C43.Proofs.
+From Dolt Require Import C29.Model C29.Spec C29.Corr C29.Proofs C43.Model C43.Spec C43.Corr C43.Proofs C43.PriorProofs.
 Import ListNotations.
 Local Open Scope N_scope.
 
@@ -76,3 +76,9 @@ Print Assumptions C43_check_case_p_nil.
 Theorem C43_oracle_on_model_p_nil : forall i, oracle_p [] i (model_obs_p [] i) = true.
 Proof. exact oracle_on_model_p_nil. Qed.
 Print Assumptions C43_oracle_on_model_p_nil.
+
+(* ---- the oracle accepts the model with conflict artifacts of an earlier merge ---- *)
+Theorem C43_oracle_on_model_p :
+  forall prior i, prior_ok prior i = true -> oracle_p prior i (model_obs_p prior i) = true.
+Proof. exact oracle_on_model_p. Qed.
+Print Assumptions C43_oracle_on_model_p.
